@@ -102,12 +102,32 @@ def check_case(ctx, case):
     def cat():
         return S.catalog(region)
 
+    # "warmup": the same forecast objects were evaluated against ANOTHER catalog first - as many events, each in the next cell and
+    # magnitude bin - (1) a catalog built and released before the evaluation proper, (2) a catalog object that is then refilled with
+    # the events of this case through its setter and used for the first evaluation.  Nothing of it may remain.
+    refilled = []
+    if case.get("warmup") and N:
+        ctx.count("forecasts_evaluated_against_another_catalog_first")
+        other = [((c + 1) % S.nc, (m + 1) % S.nm) for c, m in obs]
+
+        def warm():
+            oc = S.catalog(region, obs=other, name="other")
+            for fn_ in (P.paired_t_test, P.w_test, Bn.binary_paired_t_test):
+                with numpy.errstate(all="ignore"):
+                    call(fn_, fa, fb, oc, scale=scale)
+            return oc
+        oc = warm()
+        if case["warmup"] == 2:
+            oc.catalog = cat().catalog
+            refilled.append(oc)
+        del oc
+
     MAXLOG = max([abs(math.log(float(x) * k)) for x in ra.ravel().tolist() + rb.ravel().tolist() if x > 0] + [1.0])
     # ---------------- paired T
     res = {}
     for tag, f1, f2, dd, n1, n2 in (("AB", fa, fb, d, na, nb), ("BA", fb, fa, [-v for v in d], nb, na), ("AA", fa, fa, [0.0] * N, na, na)):
         # AB by keyword, BA and AA positionally (documented order: forecast, benchmark, catalog, alpha, scale)
-        o = call(P.paired_t_test, f1, f2, cat(), alpha=alpha, scale=scale) if tag == "AB" else call(P.paired_t_test, f1, f2, cat(), alpha, scale)
+        o = call(P.paired_t_test, f1, f2, refilled[0] if refilled else cat(), alpha=alpha, scale=scale) if tag == "AB" else call(P.paired_t_test, f1, f2, cat(), alpha, scale)
         if not o.ok:
             ctx.unexpected(o, "paired_t_test")
             continue
@@ -325,6 +345,8 @@ def cases(draw, max_events=80):
     if draw(st.integers(0, 11)) == 0:
         # more than 1000 target events: the observed (cell, bin) list repeated
         c["obs"] = c["obs"] * (1100 // len(c["obs"]) + 1)
+    if draw(st.booleans()):
+        c["warmup"] = draw(st.sampled_from([1, 1, 2]))
     if draw(st.integers(0, 2)) == 0:
         c["prescale"] = [draw(st.sampled_from([0.5, 2.0, 4.0])), draw(st.sampled_from([0.25, 1.0, 2.0]))]
     return c
